@@ -65,6 +65,8 @@ def to_impl(fd):
 
 
 WARMUPS = [0]
+OUT_VARIANTS = [0]
+OUT_MISMATCH = []
 
 
 def impl_apply(fn, f, g, args):
@@ -132,10 +134,14 @@ def impl_apply(fn, f, g, args):
                 R = F.copy(); R += args['c']
             elif fn == 'imul_scalar':
                 R = F.copy(); R *= args['c']
-            elif fn == 'exp':
-                R = F.exp()
-            elif fn == 'log':
-                R = F.log()
+            elif fn in ('exp', 'log'):
+                R = F.exp() if fn == 'exp' else F.log()
+                # the in-place (`out=`) variant must agree with the pure one, cell for cell
+                O = Factor.zeros(F.domain)
+                got = F.exp(out=O) if fn == 'exp' else F.log(out=O)
+                OUT_VARIANTS[0] += 1
+                if got is not O or not np.array_equal(np.asarray(R.values), np.asarray(O.values), equal_nan=True):
+                    OUT_MISMATCH.append((fn, f, [float(v) for v in np.asarray(R.values).flatten()][:6], [float(v) for v in np.asarray(O.values).flatten()][:6]))
             elif fn == 'copy':
                 R = F.copy()
             else:
@@ -395,6 +401,11 @@ def run(res, drv, tier, seed):
         elif d is not None:
             res.violation('correspondence', f'Factor.{fn}: model and implementation differ ({d}); '
                           'the by-name specification holds on this input', dict(replay, model=resp, stream='C14.factor'))
+    res.extra['out_variants_compared_with_pure'] = OUT_VARIANTS[0]
+    for fn_, f_, pure_, inpl_ in OUT_MISMATCH[:3]:
+        res.violation('failing-input', f'Factor.{fn_}(out=...) disagrees with the pure Factor.{fn_}(): first cells pure {pure_}, in place {inpl_}',
+                      {'request': {'op': 'factor', 'fn': fn_, 'f': f_, 'g': None, 'args': {}, 'k': 'f', 'out_variant': True}, 'observed': inpl_, 'expected': pure_},
+                      key=f'factor.{fn_}:out-variant')
     run_cliquevector(res, drv, tier, seed)
 
 
